@@ -9,6 +9,7 @@ import (
 	"strings"
 	"sync"
 	"time"
+	"verifharness/internal/netx"
 )
 
 // RawResponse is written to the wire exactly as given: header fields in this order and
@@ -39,10 +40,7 @@ type RawOrigin struct {
 }
 
 func NewRaw(h func(r *http.Request, body []byte, e *Entry) RawResponse) *RawOrigin {
-	ln, err := net.Listen("tcp", "127.0.0.1:0")
-	if err != nil {
-		panic(err)
-	}
+	ln := netx.Listen()
 	o := &RawOrigin{ln: ln, handler: h, conns: map[net.Conn]struct{}{}}
 	o.wg.Add(1)
 	go func() {
